@@ -186,9 +186,37 @@ def dropped_model_case(col):
     col.add({"sig": "native::structure::stale_outputs", "what": bad, "input": {"scenario": "build, drop model, re-wire, rebuild"}} if bad else None)
 
 
+def bare_dist_case(col):
+    """a stand-alone Dist (no Var) whose evaluation point was set by hand and is reachable only through `at`"""
+    x = lsl.Var(np.float32(0.3), name="x")
+    point = lsl.Calc(lambda v: v * 2.0, x, _name="point")
+    dist = lsl.Dist(tfd.Normal, loc=0.0, scale=1.0, _name="dist")
+    dist.at = point
+    bad = None
+    for how in ("GraphBuilder", "Model"):
+        m = lsl.GraphBuilder().add(dist).build_model() if how == "GraphBuilder" else lsl.Model([dist])
+        if "point" not in m.nodes or "x" not in m.vars:
+            bad = f"{how}: the evaluation point of the distribution (or its input variable) is missing from the model: nodes {sorted(n for n in m.nodes if not n.startswith('_model'))}"
+        elif m.nodes["point"].model is not m or structure_ok(m) is not None:
+            bad = f"{how}: evaluation point not owned by the model / {structure_ok(m)}"
+        else:
+            m.vars["x"].value = np.float32(1.0)
+            want = float(tfd.Normal(0.0, 1.0).log_prob(2.0))
+            if not np.isclose(float(m.nodes["dist"].value), want, rtol=1e-5):
+                bad = f"{how}: after assigning x the distribution node holds {float(m.nodes['dist'].value)}, expected {want}"
+        m.pop_nodes_and_vars()
+        if bad:
+            break
+    col.add({"sig": "native::structure::bare_dist_at", "what": bad, "input": {"graph": "Dist(at=Calc(x)) added alone"}} if bad else None)
+
+
 def bounded(tier, seed):
     rng = np.random.default_rng(seed)
     col = util.Collector()
+    try:
+        bare_dist_case(col)
+    except Exception as e:
+        col.add({"sig": f"native::structure::exception::{type(e).__name__}", "what": str(e)[:200], "input": {"scenario": "bare dist with hand-set at"}})
     try:
         groups_case(col, rng)
     except Exception as e:
@@ -208,7 +236,7 @@ def bounded(tier, seed):
                 n += 1
     mutation_case(col, rng)
     return {"evaluations": col.evals, "distinct_nontrivial": n + 2,
-            "rule": ("BOUNDED: model with a parameter, an unnamed shared Calc, a weak variable, a transient node, an observed vector variable, a group, optionally a seeded node: "
+            "rule": ("BOUNDED: model with a parameter, an unnamed shared Calc, a weak variable, a transient node, an observed vector variable, a group, optionally a seeded node; a stand-alone distribution with a hand-set evaluation point: "
                      "pop + rebuild, copy_nodes_and_vars + rebuild, deepcopy, copy=True, save/load (dill) - structure invariants (unique names, outputs = inverse of inputs, topological "
                      f"order), equal state, independence, equal behaviour under assignment; 13 mutation attempts on frozen nodes/variables; duplicate names. seed={seed}"),
             "samples": [{"round_trip": "save_load", "seeded_node": True}], "exhaustive": False, "violations": col.violations}
